@@ -16,7 +16,7 @@ assert run(f"git -C /repo worktree add -q --detach {W} HEAD").returncode == 0
 meta = {"property": P, "source": "independent sub-agent given only the property text and a scratch worktree"}
 try:
     env = dict(os.environ, PYTHONPATH=W)
-    meta["round"] = 2 if "seedout2" in srcroot else 1
+    meta["round"] = 3 if "seedout3" in srcroot else 2 if "seedout2" in srcroot else 1
     d = open(demo).read().replace(f"/tmp/seedwt/{P}", W)
     open(f"{W}/_demo.py", "w").write(d)
     r0 = run(f"cd {W} && /venv/bin/python _demo.py", env=env, timeout=900)
@@ -52,6 +52,18 @@ try:
         if notes:
             open(f"{out}/NOTES.md", "w").write(notes)
         json.dump(meta, open(f"{out}/meta.json", "w"), indent=1)
+        # the verdict of the check as it stood when the change arrived is kept (first run only)
+        hp = "/verif/seeded/HISTORY.json"
+        hist = json.load(open(hp)) if os.path.exists(hp) else {}
+        sid = f"{P}-{outn}"
+        if sid not in hist:
+            only_nfi = bool(meta["check_violation_lines"]) and all("no-failing-input-found" in l for l in meta["check_violation_lines"])
+            hist[sid] = {"first_run_detected": bool(meta["detected"]) and not only_nfi}
+            if meta["check_exit"] == 2:
+                hist[sid]["first_run_note"] = "harness error (exit 2)"
+            elif only_nfi:
+                hist[sid]["first_run_note"] = "only no-failing-input-found (an obligation broke, no failing input was produced)"
+            json.dump(hist, open(hp, "w"), indent=1)
     print(json.dumps(meta, indent=1))
 finally:
     run(f"git -C /repo worktree remove --force {W}")
